@@ -13,7 +13,7 @@ BlockTab ==
   [info  |-> << D("INFO", <<>>, "", FALSE, "", ""), D("Title", <<"T1">>, "", FALSE, "", ""),
                 D("Version", <<"1.0">>, "", FALSE, "", ""), D("Description", <<>>, "", FALSE, "d1", "") >>,
    srv   |-> << D("SERVER", <<"@s1">>, "srv one", FALSE, "", ""), D("BaseUrl", <<"http://x/{v}">>, "", FALSE, "", "") >>,
-   tag1  |-> << D("TAG", <<"@g1">>, "tag one", FALSE, "", ""), D("Description", <<>>, "", FALSE, "d2", "") >>,
+   tag1  |-> << D("TAG", <<"@g1">>, "tag one", FALSE, "", ""), D("Description", <<>>, "", FALSE, "d3", "") >>,   \* a text of two lines
    tag2  |-> << D("TAG", <<"@g_2">>, "", FALSE, "", "") >>,
    t1    |-> << D("TYPE", <<"@t1">>, "type one", FALSE, "obj", "") >>,
    t2    |-> << D("TYPE", <<"@t2">>, "", FALSE, "objref", "") >>,                 \* refers to @t1
